@@ -93,6 +93,10 @@ func judge(kind, msg, native string) string {
 			// a different assertion or a panic fired first on the same input: still a real violation
 			return "reproduced (different site): " + native
 		}
+	case "shared-write":
+		if strings.HasPrefix(native, "race: ") {
+			return "reproduced: " + native
+		}
 	case "panic":
 		if strings.HasPrefix(native, "panic: ") || native == "timeout" {
 			return "reproduced: " + native
@@ -165,6 +169,11 @@ func verifReplayOne(path string) (verdict string) {
 	if fn == nil {
 		return "no-such-harness"
 	}
+	if r.Kind == "shared-write" {
+		// run the harness in two goroutines at once; the race detector decides
+		zzverif.RunConcurrently(2, func() { fn(r.Args) })
+		return "concurrent-done"
+	}
 	defer func() {
 		switch e := recover().(type) {
 		case nil:
@@ -216,11 +225,16 @@ func runNativeReplays(P *Program, pkg string, files []string) map[string]string 
 	os.WriteFile(ovPath, ob, 0o644)
 
 	// one file at a time would cost a link each; run all, but isolate hangs with a deadline per batch
+	race := false
 	run := func(batch []string, timeout time.Duration) (string, bool) {
-		ctx, cancel := context.WithTimeout(context.Background(), timeout+90*time.Second)
+		ctx, cancel := context.WithTimeout(context.Background(), timeout+240*time.Second)
 		defer cancel()
-		cmd := exec.CommandContext(ctx, "go", "test", "-vet=off", "-count=1", "-overlay", ovPath, "-run", "^TestVerifReplay$",
-			"-timeout", fmt.Sprintf("%ds", int(timeout.Seconds())), "-v", "./"+pkg)
+		args := []string{"test", "-vet=off", "-count=1", "-overlay", ovPath, "-run", "^TestVerifReplay$",
+			"-timeout", fmt.Sprintf("%ds", int(timeout.Seconds())), "-v"}
+		if race {
+			args = append(args, "-race")
+		}
+		cmd := exec.CommandContext(ctx, "go", append(args, "./"+pkg)...)
 		cmd.Dir = repoDir
 		cmd.Env = append(goEnv(), "VERIF_REPLAY_FILES="+strings.Join(batch, ":"))
 		b, _ := cmd.CombinedOutput()
@@ -235,6 +249,36 @@ func runNativeReplays(P *Program, pkg string, files []string) map[string]string 
 				}
 			}
 		}
+	}
+	// shared-write findings are replayed one at a time under the race detector
+	var plain []string
+	sites := map[string]string{}
+	for _, f := range files {
+		var rf ReplayFile
+		if b, err := os.ReadFile(f); err == nil && json.Unmarshal(b, &rf) == nil && rf.Kind == "shared-write" {
+			if prev, ok := sites[rf.Where]; ok {
+				out[f] = out[prev] // same store site: one confirmation is enough
+				continue
+			}
+			sites[rf.Where] = f
+			race = true
+			s1, _ := run([]string{f}, 120*time.Second)
+			race = false
+			switch {
+			case strings.Contains(s1, "WARNING: DATA RACE"):
+				out[f] = "race: " + raceSummary(s1)
+			case strings.Contains(s1, "VERIF-RESULT "+f+" concurrent-done"):
+				out[f] = "no-race"
+			default:
+				out[f] = "not-run: " + firstLine(strings.TrimSpace(s1))
+			}
+			continue
+		}
+		plain = append(plain, f)
+	}
+	files = plain
+	if len(files) == 0 {
+		return out
 	}
 	s, _ := run(files, 120*time.Second)
 	parse(s)
@@ -256,6 +300,22 @@ func runNativeReplays(P *Program, pkg string, files []string) map[string]string 
 		}
 	}
 	return out
+}
+
+// raceSummary extracts the two conflicting accesses of the first race report.
+func raceSummary(s string) string {
+	var parts []string
+	lines := strings.Split(s, "\n")
+	for i, l := range lines {
+		t := strings.TrimSpace(l)
+		if (strings.HasPrefix(t, "Write at") || strings.HasPrefix(t, "Read at") || strings.HasPrefix(t, "Previous write at") || strings.HasPrefix(t, "Previous read at")) && i+1 < len(lines) {
+			parts = append(parts, strings.Fields(t)[0]+" in "+strings.TrimSpace(lines[i+1]))
+		}
+		if len(parts) == 2 {
+			break
+		}
+	}
+	return strings.Join(parts, " / ")
 }
 
 func firstMatch(s, re string) string {
